@@ -1118,6 +1118,12 @@ func (f *frame) lookupName(name string, at *ssa.BasicBlock, st *State) (Val, boo
 		}
 	}
 	if best := f.bestRef(name, at); best != nil {
+		if os.Getenv("NRIVERIF_DEBUG") != "" {
+			for _, d := range f.names[name] {
+				fmt.Fprintf(os.Stderr, "  ref %s b%d X=%s (%T) addr=%v\n", name, d.Block().Index, d.X.Name(), d.X, d.IsAddr)
+			}
+			fmt.Fprintf(os.Stderr, "lookup %s at b%d -> %s (%T) isaddr=%v val=%v\n", name, at.Index, best.X.Name(), best.X, best.IsAddr, f.refVal(best, st).S)
+		}
 		return f.refVal(best, st), true
 	}
 	return Val{}, false
@@ -1170,6 +1176,19 @@ func (f *frame) bestRef(name string, at *ssa.BasicBlock) *ssa.DebugRef {
 		}
 		if best == nil || best.Block().Dominates(b) {
 			best = d
+		}
+	}
+	// go/ssa records the zero constant at the defining identifier of `x := <composite or make>`;
+	// the variable's value is the one built in the same block, which every later reference names
+	if best != nil {
+		if _, isConst := best.X.(*ssa.Const); isConst && len(f.names[name]) > 0 && f.names[name][0] == best {
+			for _, d := range f.names[name] {
+				if in, ok := d.X.(ssa.Instruction); ok && in.Block() == best.Block() {
+					if _, ok := f.regs[d.X]; ok {
+						return d
+					}
+				}
+			}
 		}
 	}
 	return best
